@@ -20,6 +20,9 @@ from ..driver import Server, worker_scratch
 
 LEVEL = "model_checking"
 
+# the common battery plus textDocument/implementation at every identifier (bindings, interface bodies)
+REQUESTS = ("definition", "hover", "implementation", "references", "completion", "signatureHelp")
+
 # workspace -> file -> [versions]; version 0 is on disk initially (None = absent initially)
 WORKSPACES = {
     "W1_types": {
@@ -149,6 +152,39 @@ WORKSPACES = {
             "  type :: base_t\n    real :: first  !< documentation two\n    integer :: another\n  end type base_t\n",
         ],
     },
+    # a type-bound procedure whose implementation lives in ANOTHER file's module: the procedure is renamed there (or the
+    # file goes away); the binding in the file that is never touched must stop answering with the old procedure
+    "W11_binding_impl": {
+        "t.f90": [
+            "module tbm\n  use implm\n  implicit none\n  type :: tb\n    integer :: cnt\n  contains\n    procedure, nopass :: foo => impl\n  end type tb\nend module tbm\n",
+        ],
+        "i.f90": [
+            "module implm\n  implicit none\ncontains\n  subroutine impl()\n    print *, 1\n  end subroutine impl\nend module implm\n",
+            "module implm\n  implicit none\ncontains\n  subroutine impl2()\n    print *, 1\n  end subroutine impl2\nend module implm\n",
+        ],
+    },
+    # a user module that shadows an intrinsic module is renamed away (or its file deleted): the USE statement of the other
+    # file then names the intrinsic module again
+    "W12_shadow_intrinsic": {
+        "env.f90": [
+            "module iso_fortran_env\n  implicit none\n  integer, parameter :: int32 = 4\n  integer, parameter :: user_only = 1\nend module iso_fortran_env\n",
+            "module my_own_env\n  implicit none\n  integer, parameter :: int32 = 4\n  integer, parameter :: user_only = 1\nend module my_own_env\n",
+        ],
+        "use.f90": [
+            "program up\n  use iso_fortran_env, only: int32\n  implicit none\n  integer(int32) :: k\n  k = 1\nend program up\n",
+        ],
+    },
+    # a separate module procedure declared in a module, implemented by a submodule in another file: the implementation
+    # is removed from the submodule (or the submodule file goes away)
+    "W13_submodule_impl": {
+        "m.f90": [
+            "module wm\n  implicit none\n  interface\n    module subroutine work(n)\n      integer :: n\n    end subroutine work\n  end interface\nend module wm\n",
+        ],
+        "sub.f90": [
+            "submodule (wm) wsub\n  implicit none\ncontains\n  module subroutine work(n)\n    integer :: n\n    n = 1\n  end subroutine work\nend submodule wsub\n",
+            "submodule (wm) wsub\n  implicit none\n  integer :: nothing_here\nend submodule wsub\n",
+        ],
+    },
     "W4_preproc": {
         "pp.F90": [
             "program pp\n#define LOCAL_PP_ONLY 1\n#ifdef LOCAL_PP_ONLY\n  integer :: seen_local\n#endif\n#include \"hh.h\"\n#ifdef FROM_HH\n  integer :: seen_hh\n#endif\n  include 'decl.f90'\n  from_decl = 1\nend program pp\n",
@@ -166,7 +202,8 @@ WORKSPACES = {
     },
 }
 ARGV = {"W7_limits": ["--max_line_length", "50", "--max_comment_line_length", "40"]}
-QUERY = {"W10_include_type": ("a_child.f90", 9, 15), "W9_include_args": ("icall.f90", 3, 9), "W8_newdir": ("nu.f90", 3, 8), "W7_limits": ("k.f90", 1, 6), "W6_move": ("user.f90", 3, 4), "W5_chain3": ("leaf.f90", 9, 6), "W1_types": ("u.f90", 4, 4), "W2_procs": ("b.f90", 9, 10), "W3_inherit": ("c.f90", 10, 9), "W4_preproc": ("pp.F90", 10, 4)}
+QUERY = {"W11_binding_impl": ("t.f90", 6, 27), "W12_shadow_intrinsic": ("use.f90", 3, 15), "W13_submodule_impl": ("m.f90", 3, 26),
+         "W10_include_type": ("a_child.f90", 9, 15), "W9_include_args": ("icall.f90", 3, 9), "W8_newdir": ("nu.f90", 3, 8), "W7_limits": ("k.f90", 1, 6), "W6_move": ("user.f90", 3, 4), "W5_chain3": ("leaf.f90", 9, 6), "W1_types": ("u.f90", 4, 4), "W2_procs": ("b.f90", 9, 10), "W3_inherit": ("c.f90", 10, 9), "W4_preproc": ("pp.F90", 10, 4)}
 
 
 def admissible(ws, disk):
@@ -179,7 +216,8 @@ def admissible(ws, disk):
             continue
         for m in _re.finditer(r"^\s*(?:module|program|submodule\s*\([^)]*\))\s+(\w+)", WORKSPACES[ws][f][v], _re.M | _re.I):
             n = m.group(1).lower()
-            if n in ("procedure",):
+            # `module procedure x`, `module subroutine x`, `module [pure ...] function x` are not module statements
+            if n in ("procedure", "subroutine", "function", "pure", "impure", "elemental", "recursive", "non_recursive"):
                 continue
             if n in seen:
                 return False
@@ -341,7 +379,7 @@ def fresh_battery(ws, disk, root, fake_pool):
         s = Server(ARGV.get(ws, []), fake_pool=fake_pool)
         s.initialize(root)
         files = {f: WORKSPACES[ws][f][v] for f, v in disk.items() if v is not None and not f.endswith(".h")}
-        _FRESH[key] = run_battery(s, root, files)
+        _FRESH[key] = run_battery(s, root, files, requests=REQUESTS)
     return _FRESH[key]
 
 
@@ -379,7 +417,7 @@ def expand(job, acc: Acc):
             # the long-lived server is queried through a clone of its state? no: states are rebuilt for every
             # transition, so the battery may freely populate lazy caches of this instance
             dg_before, _ = server_state(s.srv, root)
-            got = run_battery(s, root, files)
+            got = run_battery(s, root, files, requests=REQUESTS)
             want = fresh_battery(ws, m.disk, root, fake_pool)
             d = diff_batteries(got, want)
             nontriv = (ws, tuple(map(tuple, h2)))
@@ -435,7 +473,7 @@ def main(ctx):
     ctx.rule = ("BFS over histories of open/change/save/close/create/delete/query events on 4 workspaces (2-4 files x 2-3 "
                 "versions each, chosen so that other files depend on what changes); states merged on heap canon + disk + "
                 "buffers; at every quiescent state the battery (symbols, workspace symbols, diagnostics, and definition / "
-                "hover / references / completion / signatureHelp at every identifier) of the long-lived server is compared "
+                "hover / implementation / references / completion / signatureHelp at every identifier) of the long-lived server is compared "
                 "with a freshly started server on the same directory. Non-trivial = quiescent state reached by a non-empty "
                 "history; distinct by history.")
     ctx.assumptions = ["the server learns about file changes only through the notifications it implements "
@@ -467,9 +505,9 @@ def replay(rec):
         h = [tuple(x) for x in c["history"]]
         s, m = build(c["ws"], h, root, c.get("fake_pool", False))
         files = {f: WORKSPACES[c["ws"]][f][v] for f, v in m.disk.items() if v is not None and not f.endswith(".h")}
-        got = run_battery(s, root, files)
+        got = run_battery(s, root, files, requests=REQUESTS)
         s2 = Server(ARGV.get(c["ws"], []), fake_pool=c.get("fake_pool", False))
         s2.initialize(root)
-        want = run_battery(s2, root, files)
+        want = run_battery(s2, root, files, requests=REQUESTS)
         d = diff_batteries(got, want, limit=6)
         return [{"query": k, "long_lived": a, "fresh": b} for k, a, b in d] or None
